@@ -91,6 +91,16 @@ def programs(mapping, defines):
     # blocks of one repeated byte (a writer may want to run-length encode them)
     out["uniform"] = [("org", N(b["a"]))] + [("ins", "nop", "", None, None)] * 12 + [("org", N(b["a"] + 0x100)), ("data", "db", [N(0)] * 16),
                       ("org", N(b["a"] + 0x200)), ("data", "db", [N(0xFF)] * 20), ("data", "db", [N(0)] * 20), ("org", N(b["b"])), ("data", "dw", [N(0x7E7E)] * 9)]
+    # an all-zero block written OVER bytes that an earlier block put there (a writer that skips zero blocks would keep them)
+    out["zero-over"] = [("org", N(b["a"])), ("data", "db", [N(0x11), N(0x12), N(0x13), N(0x14), N(0x15), N(0x16)]), ("org", N(b["a"] + 2)),
+                        ("data", "db", [N(0), N(0)]), ("org", N(b["a"] + 0x20)), ("data", "dw", [N(0)])]
+    # names that the root scope and inner scopes / loop iterations both define, used at root level before and after them:
+    # printing the symbol table (--dump-symbols) must not change what they mean
+    out["same-names"] = [("eq", "kk", N(0x55)), ("org", N(b["a"])), ("label", "loop"), ("ins", "dex", "", None, None), ("bra", "bne", S("loop")),
+                         ("data", "db", [S("kk")]),
+                         ("for", "kk", N(0), N(2), [("label", "inl"), ("data", "db", [S("kk")])]),
+                         ("block", [("label", "loop"), ("ins", "nop", "", None, None), ("bra", "bne", S("loop")), ("eq", "kk", N(0x66)), ("data", "db", [S("kk")])]),
+                         ("data", "db", [S("kk")]), ("bra", "bne", S("loop")), ("data", "dl", [S("loop")])]
     names = {d[0] for d in defines}
     if "cfg.depth" in names:
         out["use-dotted"] = [("org", N(b["a"])), ("data", "dw", [S("cfg.depth")]), ("if", S("cfg.depth"), [("data", "db", [N(0x11)])], None),
